@@ -523,6 +523,17 @@ func coqObs(obj string, r obs) string {
 	panic("coqObs " + r.Kind)
 }
 
+// nest renders a monomorphic sequence: C x1 (C x2 (... Nil))
+func nest(cons, nilc string, parts []string) string {
+	var sb strings.Builder
+	for _, p := range parts {
+		sb.WriteString(cons + " " + p + " (")
+	}
+	sb.WriteString(nilc)
+	sb.WriteString(strings.Repeat(")", len(parts)))
+	return sb.String()
+}
+
 type gen struct {
 	w            *cw.Writer
 	rng          *rand.Rand
@@ -549,7 +560,7 @@ func (g *gen) emit(obj, stream string, ops []op, r run) {
 	panicked := ""
 	aliasBad := false
 	for i, o := range ops {
-		parts[i] = fmt.Sprintf("(%s, %s)", coqOp(obj, o), coqObs(obj, r.out[i]))
+		parts[i] = fmt.Sprintf("(%s) (%s)", coqOp(obj, o), coqObs(obj, r.out[i]))
 		descOps[i] = o.String()
 		descObs[i] = r.out[i].String()
 		if r.out[i].Kind == "panic" && panicked == "" {
@@ -586,9 +597,9 @@ func (g *gen) emit(obj, stream string, ops []op, r run) {
 	}
 	var coq string
 	if obj == "SafeMap" {
-		coq = fmt.Sprintf("CSafe %s %s", cw.B(r.refOK), cw.L(parts))
+		coq = fmt.Sprintf("CSafe %s (%s)", cw.B(r.refOK), nest("SC", "SNil", parts))
 	} else {
-		coq = fmt.Sprintf("CSync %s %s %s", cw.B(r.refOK), cw.B(r.nilable), cw.L(parts))
+		coq = fmt.Sprintf("CSync %s %s (%s)", cw.B(r.refOK), cw.B(r.nilable), nest("YC", "YNil", parts))
 	}
 	key := obj + "|" + r.types + "|" + strings.Join(descOps, ";")
 	g.w.Add(cw.Case{Coq: coq, Desc: map[string]any{"object": obj, "types": r.types, "ops": descOps, "observed": descObs,
